@@ -63,21 +63,30 @@ impl Default for SyncOutcome {
 
 // ---- crate::actor::SyncHandle ----
 // The real SyncHandle is a cloneable channel handle to the store actor; every effect on the store made by the
-// codec goes through `sync_process_message` / `sync_initial_message`. The model is the actor state reduced to a
-// ghost log of the `sync_process_message` calls (namespace of each call). Because the log has to advance, the
-// shell method takes `&mut self` and the units map the parameter type `SyncHandle` / `&SyncHandle` to
-// `&mut SyncHandle` in the signature (R3); the body text is unchanged. The reply is arbitrary (Ok or Err): the
-// actor may be stopped, the replica closed or sync disabled.
+// codec goes through `sync_process_message` (`sync_initial_message` only reads). The model is the actor state
+// reduced to a ghost log of the `sync_process_message` calls (namespace and kind of reply of each call). Because
+// the log has to advance, the shell method takes `&mut self` and the units map the parameter type `SyncHandle` /
+// `&SyncHandle` to `&mut SyncHandle` in the signature (R3); the body text is unchanged. The reply is arbitrary
+// (Ok or Err): the actor may be stopped, the replica closed or sync disabled.
+pub enum ReplyKind { Failed, More, Done }
+pub struct StoreCall { pub ns: NamespaceId, pub reply: ReplyKind }
+pub open spec fn reply_kind(r: Result<(Option<sync::ProtocolMessage>, SyncOutcome), AnyhowError>) -> ReplyKind {
+    match r {
+        Err(_) => ReplyKind::Failed,
+        Ok((Some(_), _)) => ReplyKind::More,
+        Ok((None, _)) => ReplyKind::Done,
+    }
+}
 #[verifier::external_body]
 pub struct SyncHandle { _p: u8 }
 impl SyncHandle {
-    /// namespaces of all `sync_process_message` calls so far
-    pub uninterp spec fn calls(&self) -> Seq<NamespaceId>;
+    /// all `sync_process_message` calls so far
+    pub uninterp spec fn calls(&self) -> Seq<StoreCall>;
 
     #[verifier::external_body]
     pub async fn sync_process_message(&mut self, namespace: NamespaceId, message: sync::ProtocolMessage, from: PeerIdBytes, state: SyncOutcome)
         -> (r: Result<(Option<sync::ProtocolMessage>, SyncOutcome), AnyhowError>)
-        ensures final(self).calls() == old(self).calls().push(namespace)
+        ensures final(self).calls() == old(self).calls().push(StoreCall { ns: namespace, reply: reply_kind(r) })
     { unimplemented!() }
 
     #[verifier::external_body]
@@ -86,7 +95,19 @@ impl SyncHandle {
     { unimplemented!() }
 }
 
-/// all calls logged after position `from` are for namespace `ns`
-pub open spec fn calls_only_for(log: Seq<NamespaceId>, from: int, ns: NamespaceId) -> bool {
-    forall|i: int| from <= i < log.len() ==> log[i] == ns
+/// store calls were only added, and only for `ns`
+pub open spec fn calls_only_for(before: Seq<StoreCall>, after: Seq<StoreCall>, ns: NamespaceId) -> bool {
+    &&& before.len() <= after.len()
+    &&& forall|i: int| 0 <= i < before.len() ==> after[i] == before[i]
+    &&& forall|i: int| before.len() <= i < after.len() ==> after[i].ns == ns
+}
+/// exactly n store calls were added, all for `ns`, and all but possibly the last one asked for more (reply Some)
+pub open spec fn calls_appended(before: Seq<StoreCall>, after: Seq<StoreCall>, n: nat, ns: NamespaceId) -> bool {
+    &&& after.len() == before.len() + n
+    &&& calls_only_for(before, after, ns)
+    &&& forall|i: int| before.len() <= i < after.len() - 1 ==> after[i].reply is More
+}
+/// number of store calls added
+pub open spec fn calls_added(before: Seq<StoreCall>, after: Seq<StoreCall>) -> nat {
+    (after.len() - before.len()) as nat
 }
